@@ -18,6 +18,8 @@ pub struct IrqProg {
     pub labels: HashMap<String, u32>,
     pub uses_trap: bool,
     pub desc: String,
+    /// contents of plain I/O register locations before the program starts (configuration noise)
+    pub io: Vec<(u32, u8)>,
 }
 
 fn reg_op(rng: &mut Rng) -> Vec<u16> {
@@ -137,7 +139,8 @@ pub fn gen_irq_prog(rng: &mut Rng) -> IrqProg {
     a.label("log");
     let (mut image, labels) = a.finish();
     image.resize(image.len() + LOG_CAP as usize, 0);
-    IrqProg { image, labels, uses_trap, desc: format!("loops={} trap-critical-sections={}", nloops, uses_trap) }
+    let io = if rng.chance(1, 3) { gen::io_noise(rng) } else { vec![] };
+    IrqProg { image, labels, uses_trap, desc: format!("loops={} trap-critical-sections={} io-noise={:x?}", nloops, uses_trap, io), io }
 }
 
 pub fn load_prog(cpu: &mut Cpu, p: &IrqProg, sp: u32) {
@@ -150,6 +153,9 @@ pub fn load_prog(cpu: &mut Cpu, p: &IrqProg, sp: u32) {
         for k in 0..4 {
             real_poke(cpu, 4 * v + k, (t >> (8 * (3 - k))) as u8);
         }
+    }
+    for (a, v) in &p.io {
+        real_poke(cpu, *a, *v);
     }
     cpu.er = [0; 8];
     cpu.er[7] = sp;
